@@ -21,10 +21,13 @@ def setup():
         if rc != 0:
             print(out[-4000:])
             return 1
-        rc, out = common.build_modeld()
-        if rc != 0:
-            print(out[-4000:])
-            return 1
+        import glob
+        for run in sorted(glob.glob(os.path.join(common.COQ, "C[0-9][0-9]", "Run.v"))):
+            pid = os.path.basename(os.path.dirname(run))
+            rc, out = common.build_modeld(pid)
+            if rc != 0:
+                print(out[-4000:])
+                return 1
     print("setup ok in %.0fs" % (time.time() - t0))
     return 0
 
